@@ -115,6 +115,24 @@ func errorReturnedWhenNonNilF(e ssa.Value, flag ssa.Value) (bool, string) {
 			}
 		case *ssa.ChangeInterface:
 			return denotes(x.X, upto)
+		case *ssa.UnOp:
+			// result spilled to a local because of defers: the last store on the path
+			al, ok := x.X.(*ssa.Alloc)
+			if !ok || x.Op != token.MUL {
+				return false
+			}
+			for i := upto; i >= 0; i-- {
+				instrs := path[i].Instrs
+				start := len(instrs) - 1
+				if path[i] == x.Block() && i == upto {
+					start = instrIndex(x) - 1
+				}
+				for k := start; k >= 0; k-- {
+					if st, ok := instrs[k].(*ssa.Store); ok && st.Addr == ssa.Value(al) {
+						return denotes(st.Val, i)
+					}
+				}
+			}
 		case *ssa.Call:
 			// fmt.Errorf("...%w", e): wrapping returns the error
 			if callee := x.Call.StaticCallee(); callee != nil && callee.String() == "fmt.Errorf" {
